@@ -15,6 +15,7 @@ import numpy as np
 
 from mc.core import Report, viol, collect_samples
 from mc.oracles.s2 import sphere_voronoi
+from mc.histories import explore_getter_orders
 
 from molgri.space.fullgrid import PositionGrid
 
@@ -179,6 +180,22 @@ def run_case(case):
     return {"violations": vs, "pairs": int(XA.sum()), "open": is_open, "harness": harness}
 
 
+PG_GETTERS = {"volumes": lambda pg: pg.get_all_position_volumes(),
+              "adjacency": lambda pg: pg.get_adjacency_of_position_grid(),
+              "borders": lambda pg: pg.get_borders_of_position_grid(),
+              "distances": lambda pg: pg.get_distances_of_position_grid()}
+
+
+def order_case(case):
+    o, t = case["o"], case["t"]
+    bad, nwords, calls = explore_getter_orders(lambda: PositionGrid(o, t, position_grid_cartesian=True), PG_GETTERS, depth=3)
+    vs = []
+    for w, pos, g, exp, obs in bad[:3]:
+        vs.append(viol(f"C06|getter_order|{o}|t={t}|word={'>'.join(w[:pos + 1])}", f"{g} after {w[:pos]} on the same "
+                       "Cartesian PositionGrid differs from the first call on a fresh object", dict(case, word=w), exp, obs))
+    return {"violations": vs, "pairs": 0, "open": False, "words": nwords, "calls": calls}
+
+
 def cases(tier):
     out = []
     if tier == "quick":
@@ -200,6 +217,11 @@ def run(ctx):
     rep = Report(PROPERTY, "exploration")
     cs = cases(ctx.tier)
     res = ctx.pmap(run_case, cs, chunksize=1, recheck=3)
+    ocs = [{"order": True, "o": o, "t": t} for o, t in (("ico_12", "[0.1, 0.3, 0.4]"), ("cube3D_8", "0.5"),
+                                                        ("randomS_10", "[0.2,0.3]"))]
+    ores = ctx.pmap(order_case, ocs, chunksize=1, recheck=1)
+    for r in ores:
+        rep.add_violations(r["violations"])
     for r in res:
         rep.add_violations(r["violations"])
         if r.get("harness"):
@@ -212,6 +234,7 @@ def run(ctx):
                 "evaluations = adjacent ordered pairs compared; distinct_nontrivial = grids whose cells are all bounded",
         "samples": collect_samples([f"{c['alg']}_{c['N']} {c['t']}" for c in cs], 6),
         "grids_with_open_cells": sorted({f"{c['alg']}_{c['N']}" for c, r in zip(cs, res) if r["open"]}),
+        "getter_order_words": sum(r["words"] for r in ores), "getter_order_calls": sum(r["calls"] for r in ores),
         "exhaustive": True,
         "bound": {"N": "4..45, 48..55, 80, 92, 98, 100, 162" if ctx.tier == "quick" else "4..100, 162"},
     }
@@ -221,4 +244,6 @@ def run(ctx):
 
 
 def replay(case):
+    if case.get("order"):
+        return order_case(case)["violations"]
     return run_case(case)["violations"]
